@@ -46,13 +46,19 @@ def specMap (es : Option (List SExpr)) (rows : List Row) : List Row :=
   | none => rows
   | some es => rows.filterMap fun r => evalAll r es
 
+/-- LIMIT: the first n rows -/
+def applyLimit (l : Option Nat) (full : List Row) : List Row :=
+  match l with
+  | some n => full.take n
+  | none => full
+
 /-- the result of one SELECT block over input `inp` may be `out` -/
 def BlockResult (b : Block) (inp out : List Row) : Prop :=
   ∃ core full,
     (if b.distinct then IsDistinctOf core (specMap b.proj (specFilter b.whr inp))
      else core = specMap b.proj (specFilter b.whr inp)) ∧
     SameBag full core ∧ SortedBy b.order full ∧
-    out = (match b.limit with | some n => full.take n | none => full)
+    out = applyLimit b.limit full
 
 /-- the result of a (possibly nested) query over table `t` may be `out` -/
 def QueryResult : Query → List Row → List Row → Prop
